@@ -314,6 +314,11 @@ def make_doc(rng, stream, size):
             lang = rng.choice(["python", "python", "", "rust", "text"])
             body = hostile_lines(rng, all_names) if rng.random() < 0.6 else ["print(%d)" % rng.randint(0, 9), "y = [1, 2]"]
             sig = "```" if stream != "layout" or rng.random() < 0.7 else "~~~"
+            if rng.random() < 0.3:
+                # a listing that shows how a fence is written: the body embeds a fence of the OTHER sigil type
+                # (docs/mechdown/code-block.mec: start and end fences must be of the same type)
+                other = "~~~" if sig == "```" else "```"
+                body = [other + rng.choice(["", "mech", "mech:x"])] + body + [other]
             doc.append(dict(kind="nonmech", pk="nonmech", text=sig + lang + "\n" + "".join(l + "\n" for l in body) + sig + "\n"))
         elif c < 0.95:
             doc.append(dict(kind="disabled", pk="disabled", name="", items=[dict(text=l, defs=[], uses=[]) for l in hostile_lines(rng, all_names)]))
